@@ -1221,6 +1221,29 @@ class Engine:
             at = self.atom(name, min(cs), max(cs), "mul", (a, b))
         return Lin.atom(at)
 
+    def _link_remainders(self, st, x, k, rm, nonneg):
+        """Remainders of the same value by moduli that divide one another are congruent: x % m == k*j + x % k when k | m (same sign
+        for the truncating remainder).  Added when the second remainder appears on a path, so that `y % 100 != 0` excludes
+        `y % 400 == 0` without the code having to test it (nested leap-year rule)."""
+        seen = set()
+        for lin_, _op in list(st.cons):
+            for a in lin_.c:
+                if a.kind != "trem" or a is rm or a.id in seen or not isinstance(a.defn, tuple) or not isinstance(a.defn[1], int):
+                    continue
+                seen.add(a.id)
+                if a.defn[0].key() != x.key():
+                    continue
+                m = abs(a.defn[1])
+                if m == k:
+                    self.add_cons(st, [(Lin.atom(a) - Lin.atom(rm), "==")])
+                    continue
+                big, small, mb, ms = (a, rm, m, k) if m % k == 0 and m > k else ((rm, a, k, m) if k % m == 0 and k > m else (None, None, 0, 0))
+                if big is None:
+                    continue
+                n = mb // ms
+                j = self.atom("remlink(%s,%s)" % (big.name, small.name), 0 if nonneg else -(n - 1), (n - 1) if nonneg else 0, "remlink", (Lin.atom(big), Lin.atom(small)))
+                self.add_cons(st, [(Lin.atom(big) - Lin({j: ms, small: 1}), "==")])
+
     def divrem(self, st, base, l, r, tid):
         """Truncating integer division / remainder (the Assert for zero / overflow precedes it)."""
         rc = self.const_of(st, r)
@@ -1245,6 +1268,7 @@ class Engine:
             ):
                 for s2 in self.assume(st.clone(), cond):
                     self.add_cons(s2, [defn] + extra)
+                    self._link_remainders(s2, l.lin, abs(rc), rm, extra[0][0].c.get(rm) == -1)
                     out.append((s2, Int(Lin.atom(q if base == "Div" else rm), tid)))
             return out
         # symbolic divisor: uninterpreted with sign/magnitude facts for the remainder
